@@ -159,7 +159,88 @@ pub proof fn lemma_bsel_done(es: Seq<Tv>, k: int, l: int, bi: int, bj: int, m: i
         }
     }
 }
+/// what extract says about one stored entry e and the value o of the position map there
+pub open spec fn ext_at<F: Fn(usize, usize) -> Option<(usize, usize)>>(f: F, e: Tv, shape: (usize, usize), r: SpMat, o: Option<(usize, usize)>) -> bool {
+    f.ensures((e.0, e.1), o) && (o.is_some() ==> ((e.2 != r0() ==> o.unwrap().0 < shape.0 && o.unwrap().1 < shape.1)
+        && (o.unwrap().0 < shape.0 && o.unwrap().1 < shape.1 ==> r.at(o.unwrap().0 as int, o.unwrap().1 as int) == e.2)))
+}
+pub open spec fn ext_ok<F: Fn(usize, usize) -> Option<(usize, usize)>>(f: F, e: Tv, shape: (usize, usize), r: SpMat) -> bool { exists|o: Option<(usize, usize)>| #[trigger] ext_at(f, e, shape, r, o) }
+/// what extract hands to from_entries after the first p stored entries: the entries whose position map value os[t] is defined, moved there
+pub open spec fn fsel(es: Seq<Tv>, os: Seq<Option<(usize, usize)>>, p: int) -> Seq<Tv> decreases p {
+    if p <= 0 { Seq::empty() } else if os[p - 1].is_some() { fsel(es, os, p - 1).push((os[p - 1].unwrap().0, os[p - 1].unwrap().1, es[p - 1].2)) } else { fsel(es, os, p - 1) }
+}
+pub open spec fn fsrc(es: Seq<Tv>, os: Seq<Option<(usize, usize)>>, p: int, u: int) -> int decreases p {
+    if p <= 0 { -1 } else if os[p - 1].is_some() && u == fsel(es, os, p - 1).len() { p - 1 } else { fsrc(es, os, p - 1, u) }
+}
+/// fsel looks at os[0..p) only
+pub proof fn lemma_fsel_ext(es: Seq<Tv>, os0: Seq<Option<(usize, usize)>>, os: Seq<Option<(usize, usize)>>, p: int)
+    requires 0 <= p <= os0.len(), os0.len() <= os.len(), forall|t: int| 0 <= t < os0.len() ==> os[t] == os0[t]
+    ensures fsel(es, os, p) == fsel(es, os0, p)
+    decreases p
+{ if p > 0 { lemma_fsel_ext(es, os0, os, p - 1); } }
+pub proof fn lemma_fsrc(es: Seq<Tv>, os: Seq<Option<(usize, usize)>>, p: int, u: int)
+    requires 0 <= p <= es.len(), p <= os.len(), 0 <= u < fsel(es, os, p).len()
+    ensures 0 <= fsrc(es, os, p, u) < p, os[fsrc(es, os, p, u)].is_some(),
+        fsel(es, os, p)[u] == (os[fsrc(es, os, p, u)].unwrap().0, os[fsrc(es, os, p, u)].unwrap().1, es[fsrc(es, os, p, u)].2),
+        forall|u2: int| u < u2 < fsel(es, os, p).len() ==> fsrc(es, os, p, u) < #[trigger] fsrc(es, os, p, u2),
+    decreases p
+{
+    if p > 0 {
+        let b0 = fsel(es, os, p - 1);
+        if os[p - 1].is_some() {
+            if u < b0.len() { lemma_fsrc(es, os, p - 1, u); }
+            assert forall|u2: int| u < u2 < fsel(es, os, p).len() implies fsrc(es, os, p, u) < #[trigger] fsrc(es, os, p, u2) by {
+                assert(fsel(es, os, p).len() == b0.len() + 1);
+                if u2 < b0.len() { assert(fsrc(es, os, p, u2) == fsrc(es, os, p - 1, u2)); assert(fsrc(es, os, p - 1, u) < fsrc(es, os, p - 1, u2)); }
+                else { assert(u2 == b0.len()); assert(fsrc(es, os, p, u2) == p - 1); assert(fsrc(es, os, p, u) == fsrc(es, os, p - 1, u)); }
+            }
+        } else {
+            lemma_fsrc(es, os, p - 1, u);
+            assert forall|u2: int| u < u2 < fsel(es, os, p).len() implies fsrc(es, os, p, u) < #[trigger] fsrc(es, os, p, u2) by {
+                assert(fsrc(es, os, p - 1, u) < fsrc(es, os, p - 1, u2));
+            }
+        }
+    }
+}
+pub proof fn lemma_fidx(es: Seq<Tv>, os: Seq<Option<(usize, usize)>>, p: int, t: int)
+    requires 0 <= t < p <= es.len(), p <= os.len(), os[t].is_some()
+    ensures 0 <= fsel(es, os, t).len() < fsel(es, os, p).len(), fsel(es, os, p)[fsel(es, os, t).len() as int] == (os[t].unwrap().0, os[t].unwrap().1, es[t].2)
+    decreases p
+{ if p - 1 == t { } else { lemma_fidx(es, os, p - 1, t); } }
+/// dropping the zero values (and whatever lies outside the shape) of a duplicate-free list keeps it duplicate-free and keeps every value inside the shape
+pub proof fn lemma_nz(es: Seq<Tv>, m: int, n: int)
+    requires distinct(es), 0 <= m, 0 <= n
+    ensures ({ let x = bsel(es, es.len() as int, m, n, 0, 0); distinct(x) && inside(x, m, n) && forall|i: int, j: int| 0 <= i < m && 0 <= j < n ==> #[trigger] val(x, i, j) == val(es, i, j) }),
+{
+    let p = es.len() as int;
+    let x = bsel(es, p, m, n, 0, 0);
+    assert forall|u: int| 0 <= u < x.len() implies (#[trigger] x[u]).0 < m && x[u].1 < n by { lemma_src(es, p, m, n, 0, 0, u); }
+    assert forall|s1: int, t1: int| 0 <= s1 < t1 < x.len() implies !(#[trigger] x[s1].0 == #[trigger] x[t1].0 && x[s1].1 == x[t1].1) by {
+        lemma_src(es, p, m, n, 0, 0, s1); lemma_src(es, p, m, n, 0, 0, t1);
+        let (a, b) = (src(es, p, m, n, 0, 0, s1), src(es, p, m, n, 0, 0, t1));
+        assert(a < b); assert(!(es[a].0 == es[b].0 && es[a].1 == es[b].1));
+    }
+    assert forall|i: int, j: int| 0 <= i < m && 0 <= j < n implies #[trigger] val(x, i, j) == val(es, i, j) by {
+        if has(x, i, j) {
+            let u = pos(x, i, j);
+            lemma_src(es, p, m, n, 0, 0, u);
+            lemma_val(es, src(es, p, m, n, 0, 0, u));
+        } else if has(es, i, j) {
+            let t = pos(es, i, j);
+            lemma_val(es, t);
+            if es[t].2 != r0() {
+                assert(inblk(es[t], m, n, 0, 0));
+                lemma_idx(es, p, m, n, 0, 0, t);
+                let u = bsel(es, t, m, n, 0, 0).len() as int;
+                assert(x[u].0 == i && x[u].1 == j);
+                assert(has(x, i, j));
+            }
+        }
+    }
+}
+
 /// the entry list combine_blocks hands to from_entries: the four blocks' stored entries, moved to their quadrant, one block after the other
+#[verifier::opaque]
 pub open spec fn cat4(a: Seq<Tv>, b: Seq<Tv>, c: Seq<Tv>, d: Seq<Tv>, k: int, l: int) -> Seq<Tv> { shl(a, 0, 0) + shl(b, 0, l) + shl(c, k, 0) + shl(d, k, l) }
 /// entry (i, j) of [A B; C D]
 pub open spec fn glue(a: Seq<Tv>, b: Seq<Tv>, c: Seq<Tv>, d: Seq<Tv>, k: int, l: int, i: int, j: int) -> int {
@@ -174,20 +255,25 @@ pub open spec fn fits(a: Seq<Tv>, b: Seq<Tv>, c: Seq<Tv>, d: Seq<Tv>, k: int, l:
     0 <= k <= m && 0 <= l <= n && m <= usize::MAX && n <= usize::MAX && distinct(a) && distinct(b) && distinct(c) && distinct(d)
     && inside(a, k, l) && inside(b, k, n - l) && inside(c, m - k, l) && inside(d, m - k, n - l)
 }
+pub proof fn lemma_cat_len(a: Seq<Tv>, b: Seq<Tv>, c: Seq<Tv>, d: Seq<Tv>, k: int, l: int)
+    ensures cat4(a, b, c, d, k, l).len() == a.len() + b.len() + c.len() + d.len()
+{ reveal(cat4); }
 pub proof fn lemma_cat_at(a: Seq<Tv>, b: Seq<Tv>, c: Seq<Tv>, d: Seq<Tv>, k: int, l: int, m: int, n: int, u: int)
     requires fits(a, b, c, d, k, l, m, n), 0 <= u < cat4(a, b, c, d, k, l).len()
     ensures ({ let q = gq(a, b, c, u); let x = gblk(a, b, c, d, q); let t = gi(a, b, c, u); let e = cat4(a, b, c, d, k, l)[u];
         0 <= q < 4 && 0 <= t < x.len() && u == goff(a, b, c, q) + t && e.0 == x[t].0 + (if q >= 2 { k } else { 0 }) && e.1 == x[t].1 + (if q % 2 == 1 { l } else { 0 }) && e.2 == x[t].2
         && ((e.0 >= k) == (q >= 2)) && ((e.1 >= l) == (q % 2 == 1)) && e.0 < m && e.1 < n })
 {
+    reveal(cat4);
     let q = gq(a, b, c, u); let x = gblk(a, b, c, d, q); let t = gi(a, b, c, u);
     assert(cat4(a, b, c, d, k, l).len() == a.len() + b.len() + c.len() + d.len());
     assert(x[t].0 >= 0 && x[t].1 >= 0);
 }
 pub proof fn lemma_cat_from(a: Seq<Tv>, b: Seq<Tv>, c: Seq<Tv>, d: Seq<Tv>, k: int, l: int, m: int, n: int, q: int, t: int)
     requires fits(a, b, c, d, k, l, m, n), 0 <= q < 4, 0 <= t < gblk(a, b, c, d, q).len()
-    ensures ({ let u = goff(a, b, c, q) + t; 0 <= u < cat4(a, b, c, d, k, l).len() && gq(a, b, c, u) == q && gi(a, b, c, u) == t })
+    ensures ({ let u = goff(a, b, c, q) + t; 0 <= u < cat4(a, b, c, d, k, l).len() && gq(a, b, c, u) == q && gi(a, b, c, u) == t }), cat4(a, b, c, d, k, l).len() == a.len() + b.len() + c.len() + d.len()
 {
+    reveal(cat4);
     assert(cat4(a, b, c, d, k, l).len() == a.len() + b.len() + c.len() + d.len());
 }
 pub proof fn lemma_glue_distinct(a: Seq<Tv>, b: Seq<Tv>, c: Seq<Tv>, d: Seq<Tv>, k: int, l: int, m: int, n: int)
@@ -234,7 +320,7 @@ pub proof fn lemma_glue_val(a: Seq<Tv>, b: Seq<Tv>, c: Seq<Tv>, d: Seq<Tv>, k: i
     let x = gblk(a, b, c, d, q); let (di, dj) = (if q >= 2 { k } else { 0 }, if q % 2 == 1 { l } else { 0 });
     let (bm, bn) = (if q >= 2 { m - k } else { k }, if q % 2 == 1 { n - l } else { l });
     let off = goff(a, b, c, q);
-    assert(g.len() == a.len() + b.len() + c.len() + d.len());
+    lemma_cat_len(a, b, c, d, k, l);
     assert forall|t: int| 0 <= t < x.len() implies g[off + t].0 == (#[trigger] x[t]).0 + di && g[off + t].1 == x[t].1 + dj && g[off + t].2 == x[t].2 by {
         lemma_cat_from(a, b, c, d, k, l, m, n, q, t); lemma_cat_at(a, b, c, d, k, l, m, n, off + t);
     }
@@ -391,6 +477,7 @@ impl SpMat {
     //@| assert(tv(__zout0@) =~= tv(out0).push(((i + di) as usize, (j + dj) as usize, e.2)));
     //@| assert(shl(x.es@, di as int, dj as int).subrange(0, __it3.pos@) =~= shl(x.es@, di as int, dj as int).subrange(0, __it3.pos@ - 1).push(((i + di) as usize, (j + dj) as usize, e.2)));
     //@+ after-let entries
+    //@| reveal(cat4);
     //@| assert(tv(entries@) =~= cat4(a.es@, b.es@, c.es@, d.es@, k as int, l as int));
     //@| lemma_glue(a.es@, b.es@, c.es@, d.es@, k as int, l as int, m as int, n as int);
 
@@ -427,17 +514,77 @@ impl SpMat {
     //@| -> (z: SpMat) ensures z.sh@ == (m, n), z.es@.len() == 0
 
     // ---------------------------------------------------------------- extract and its clients
-    /// ASSUMED (from_entries over `self.iter().filter_map(..)`, lazy adaptors): for a position map f that is a function and injective where it
-    /// is defined, the result has exactly the stored entries of self moved to f(position); positions outside `shape` do not return
-    #[verifier::external_body] pub fn extract<F: Fn(usize, usize) -> Option<(usize, usize)>>(&self, shape: (usize, usize), f: F) -> (r: SpMat)
+    /// the stored entries of self moved to f(position) -- the real body (from_entries over `self.iter().filter_map(..)`, rule R42), for a position
+    /// map that is a function and injective where it is defined.  A non-zero entry sent outside `shape` does not return; a stored zero may be.
+    pub fn extract<F: Fn(usize, usize) -> Option<(usize, usize)>>(&self, shape: (usize, usize), f: F) -> (r: SpMat)
         requires self.wf(), forall|t: int| 0 <= t < self.es@.len() ==> f.requires(((#[trigger] self.es@[t]).0, self.es@[t].1)),
             forall|t: int, r1: Option<(usize, usize)>, r2: Option<(usize, usize)>| 0 <= t < self.es@.len() && #[trigger] f.ensures((self.es@[t].0, self.es@[t].1), r1) && #[trigger] f.ensures((self.es@[t].0, self.es@[t].1), r2) ==> r1 == r2,
             forall|s: int, t: int, r: Option<(usize, usize)>| 0 <= s < self.es@.len() && 0 <= t < self.es@.len() && #[trigger] f.ensures((self.es@[s].0, self.es@[s].1), r) && #[trigger] f.ensures((self.es@[t].0, self.es@[t].1), r) && r.is_some() ==> s == t,
+//@if B
+            // valid arguments: the position map sends stored entries into the shape
+            forall|t: int, o: Option<(usize, usize)>| 0 <= t < self.es@.len() && #[trigger] f.ensures((self.es@[t].0, self.es@[t].1), o) && o.is_some() ==> o.unwrap().0 < shape.0 && o.unwrap().1 < shape.1,
+//@endif
         ensures r.sh@ == shape, r.wf(),
-            forall|t: int| 0 <= t < self.es@.len() ==> exists|o: Option<(usize, usize)>| f.ensures(((#[trigger] self.es@[t]).0, self.es@[t].1), o)
-                && (o.is_some() ==> o.unwrap().0 < shape.0 && o.unwrap().1 < shape.1 && r.at(o.unwrap().0 as int, o.unwrap().1 as int) == self.es@[t].2),
+            forall|t: int| 0 <= t < self.es@.len() ==> ext_ok(f, #[trigger] self.es@[t], shape, r),
             forall|a: int, b: int| #[trigger] has(r.es@, a, b) ==> exists|t: int| 0 <= t < self.es@.len() && f.ensures(((#[trigger] self.es@[t]).0, self.es@[t].1), Some((a as usize, b as usize))),
-    { unimplemented!() }
+    //@body impl/SpMat/extract for_iter=1 loops=1 vec_elem=(usize,usize,ER)
+    //@+ sig
+    //@| fn extract<F>(&self, shape: (usize, usize), f: F) -> SpMat<R> where F: Fn(usize, usize) -> Option<(usize, usize)>
+    //@+ pre-raw
+    //@| let ghost es0 = self.es@; let ghost mut os: Seq<Option<(usize, usize)>> = Seq::empty(); let ghost mut gout: Seq<Tv> = Seq::empty();
+    //@+ loop 0
+    //@| invariant self.wf(), es0 == self.es@, __it0.es@ == es0, 0 <= __it0.pos@ <= es0.len(), os.len() == __it0.pos@,
+    //@|     forall|t: int| 0 <= t < es0.len() ==> f.requires(((#[trigger] es0[t]).0, es0[t].1)),
+    //@|     forall|t: int| 0 <= t < os.len() ==> f.ensures(((#[trigger] es0[t]).0, es0[t].1), os[t]),
+    //@|     tv(__fout0@) =~= fsel(es0, os, __it0.pos@),
+//@if B
+    //@|     inside(tv(__fout0@), shape.0 as int, shape.1 as int),
+    //@|     forall|t: int, o: Option<(usize, usize)>| 0 <= t < es0.len() && #[trigger] f.ensures((es0[t].0, es0[t].1), o) && o.is_some() ==> o.unwrap().0 < shape.0 && o.unwrap().1 < shape.1,
+//@endif
+    //@| ensures __it0.pos@ == es0.len(),
+    //@| decreases es0.len() - __it0.pos@,
+    //@+ loop 0 begin-raw
+    //@| let ghost out0 = __fout0@; let ghost os0 = os;
+    //@+ loop 0 begin
+    //@| assert(i == es0[__it0.pos@ - 1].0 && j == es0[__it0.pos@ - 1].1 && a.v() == es0[__it0.pos@ - 1].2);
+    //@+ loop 0 end
+    //@| os = os0.push(__o0);
+    //@| assert forall|t: int| 0 <= t < os.len() implies f.ensures(((#[trigger] es0[t]).0, es0[t].1), os[t]) by { if t < os0.len() { assert(os[t] == os0[t]); } }
+    //@| lemma_fsel_ext(es0, os0, os, __it0.pos@ - 1);
+    //@| if __o0.is_some() { assert(tv(__fout0@) =~= tv(out0).push((__o0.unwrap().0, __o0.unwrap().1, es0[__it0.pos@ - 1].2))); } else { assert(__fout0@ == out0); }
+    //@+ loop 0 after
+    //@| gout = tv(__fout0@);
+    //@+ post
+    //@| assert(es0 == self.es@);
+    //@| let n0 = es0.len() as int; let g = fsel(es0, os, n0); assert(gout =~= g); assert(__ret.es@ == bsel(g, g.len() as int, shape.0 as int, shape.1 as int, 0, 0)); let (m, n) = (shape.0 as int, shape.1 as int);
+    //@| // the handed-over list has pairwise different positions: f is a function and injective where defined
+    //@| assert forall|u1: int, u2: int| 0 <= u1 < u2 < g.len() implies !(#[trigger] g[u1].0 == #[trigger] g[u2].0 && g[u1].1 == g[u2].1) by {
+    //@|     lemma_fsrc(es0, os, n0, u1); lemma_fsrc(es0, os, n0, u2);
+    //@|     let (t1, t2) = (fsrc(es0, os, n0, u1), fsrc(es0, os, n0, u2));
+    //@|     if g[u1].0 == g[u2].0 && g[u1].1 == g[u2].1 { assert(os[t1] == os[t2]); assert(f.ensures((es0[t1].0, es0[t1].1), os[t1]) && f.ensures((es0[t2].0, es0[t2].1), os[t1])); assert(t1 == t2); }
+    //@| }
+    //@| lemma_nz(g, m, n);
+    //@| let x = __ret.es@;
+    //@| assert(forall|t2: int| 0 <= t2 < gout.len() && (#[trigger] gout[t2]).2 != r0() ==> gout[t2].0 < shape.0 && gout[t2].1 < shape.1);
+    //@| assert forall|t: int| 0 <= t < es0.len() implies ext_ok(f, #[trigger] es0[t], shape, __ret) by {
+    //@|     let o = os[t];
+    //@|     assert(f.ensures((es0[t].0, es0[t].1), o));
+    //@|     if o.is_some() {
+    //@|         lemma_fidx(es0, os, n0, t); let u = fsel(es0, os, t).len() as int; lemma_val(g, u);
+    //@|         assert(g[u] == (o.unwrap().0, o.unwrap().1, es0[t].2)); assert(gout[u] == g[u]);
+    //@|         if es0[t].2 != r0() { assert(gout[u].2 != r0()); assert(gout[u].0 < shape.0 && gout[u].1 < shape.1); }
+    //@|         if o.unwrap().0 < shape.0 && o.unwrap().1 < shape.1 { assert(val(x, o.unwrap().0 as int, o.unwrap().1 as int) == val(g, o.unwrap().0 as int, o.unwrap().1 as int)); }
+    //@|     }
+    //@|     assert(ext_at(f, es0[t], shape, __ret, o));
+    //@| }
+    //@| assert forall|a: int, b: int| #[trigger] has(x, a, b) implies exists|t: int| 0 <= t < es0.len() && f.ensures(((#[trigger] es0[t]).0, es0[t].1), Some((a as usize, b as usize))) by {
+    //@|     let u2 = pos(x, a, b);
+    //@|     lemma_src(g, g.len() as int, m, n, 0, 0, u2);
+    //@|     let u = src(g, g.len() as int, m, n, 0, 0, u2);
+    //@|     lemma_fsrc(es0, os, n0, u);
+    //@|     let t = fsrc(es0, os, n0, u);
+    //@|     assert(os[t] == Some((a as usize, b as usize)));
+    //@| }
 
     /// MatTrait's defaults: shape().0, shape().1
     #[verifier::external_body] pub fn nrows(&self) -> (r: usize) ensures r == self.sh@.0 { unimplemented!() }
